@@ -80,6 +80,8 @@ func runC11(c *vkit.Ctx, plain, trim *Program, foreign []string, absDir string, 
 			os.RemoveAll(filepath.Join(f, e.Name()))
 		}
 	}
+	nontrivialEnv := false
+	_ = nontrivialEnv
 	launch := []string{"pkgdir", "pkgdir", "foreign0", "foreign1", "foreign2", "trimpath"}[r.IntN(6)]
 	cwd := ""
 	switch launch {
@@ -105,6 +107,12 @@ func runC11(c *vkit.Ctx, plain, trim *Program, foreign []string, absDir string, 
 		roots = append(roots, cwd)
 	}
 	scn := &Scenario{Nodes: map[string]*Node{}, Roots: roots, NoClean: true}
+	if launch != "trimpath" && r.IntN(5) == 0 {
+		// TestMain of an ORDINARY build appends -trimpath to GOFLAGS for the builds its tests
+		// start; the binary was not built with it and its snapshots stay where they are
+		scn.SetGoflags = []string{"-trimpath", "--trimpath", "-trimpath -count=1"}[r.IntN(3)]
+		nontrivialEnv = true
+	}
 	nontrivial := pkg != ""
 	dirs := []string{"", "", "snaps_rel", "snaps_nested/a/b", absDir, "coverage 100%", "r%d/%s", filepath.Join(absDir, "50%off")}
 	subs := []string{"b", "c d", "x1", "b#01", "ü", "100%", "x/y", "Sub10", "v1.2", "input.json", "ratio=0.5"}
